@@ -470,9 +470,20 @@ def _shape_oracle(start, sh, res, stats=None):
     if sh["kind"] in ("arc", "circle", "arc_radius") and len(va) >= 4:
         # (for steep helical arcs the chord/arc ratio is still ~1: the bound applies to the 3-D segment length)
         stats["c12_constant_speed"] += 1
-        segs = [math.dist(p, q) for p, q in zip([start] + va[:-1], va)]
-        if max(segs) > 1.05 * res + 1e-9 or min(segs[1:-1]) < 0.85 * res:
-            return [{"property": "C12", "shape": sh, "start": start, "resolution": res, "max": max(segs), "min_interior": min(segs[1:-1]), "why": "segment length outside about [0.9, 1] resolution"}]
+        # segment length is measured along the curve: a chord c of a circle of radius r subtends 2·asin(c / 2r), the helical arc over it is
+        # hypot(r·angle, dz).  (Comparing the bare chord with 0.9·resolution is only right while the resolution is small against the radius: with four
+        # segments per turn the chord is 10 % shorter than the arc it spans — the "chord-error bound implied by the segment length" of the statement.)
+        rad = sh.get("r") or abs(sh.get("radius", 0.0))
+        def along(p, q):
+            cxy = math.hypot(p[0] - q[0], p[1] - q[1]); dz = p[2] - q[2]
+            if rad <= 0 or cxy >= 2 * rad: return math.dist(p, q)
+            return math.hypot(rad * 2 * math.asin(cxy / (2 * rad)), dz)
+        pts = [start] + va
+        segs = [along(p, q) for p, q in zip(pts[:-1], pts[1:])]
+        chords = [math.dist(p, q) for p, q in zip(pts[:-1], pts[1:])]
+        if max(chords) > 1.05 * res + 1e-9 or max(segs) > 1.05 * res + 1e-9 or min(segs[1:-1]) < 0.85 * res:
+            return [{"property": "C12", "shape": sh, "start": start, "resolution": res, "max": max(segs), "min_interior": min(segs[1:-1]), "max_chord": max(chords),
+                     "why": "segment length (along the curve) outside about [0.9, 1] resolution, or a chord longer than the resolution"}]
     vh = _trace_vertices(start, sh, False, res / 2)
     if len(vh) < len(va):
         return [{"property": "C12", "shape": sh, "start": start, "resolution": res, "why": f"halving the resolution gave fewer segments ({len(vh)} < {len(va)})"}]
@@ -488,8 +499,8 @@ def _tracer_bounded(tier, seed):
         start = (rnd.uniform(-40, 40), rnd.uniform(-40, 40), rnd.uniform(-5, 5))
         sh = _rand_shape(rnd, start)
         res = rnd.choice([0.05, 0.1, 0.5, 1.0, 2.0])
-        bad = _shape_oracle(start, sh, res, stats)
-        if bad: break
+        bad += _shape_oracle(start, sh, res, stats)
+        if len(bad) >= 5: break          # a violation of one property does not hide later shapes from the other two
     return bad, stats, n
 
 
